@@ -1699,6 +1699,96 @@ pub fn c19_limit_units(thorough: bool) -> Vec<Unit> {
     v
 }
 
+/// An actor whose pre_start joins a group and then takes a while: the peer learns of it (and of its group) while
+/// it is still Starting, and what the peer sends through the stand-in in that window waits in the original's
+/// mailbox and is handled once it runs; the stand-in keeps working afterwards.
+struct SlowStarter {
+    log: L,
+    start_ms: u64,
+}
+impl Actor for SlowStarter {
+    type Msg = Wire;
+    type State = ();
+    type Arguments = ();
+    async fn pre_start(&self, me: ActorRef<Wire>, _: ()) -> Result<(), ActorProcessingErr> {
+        ractor::pg::join("slow".into(), vec![me.get_cell()]);
+        ractor::concurrency::sleep(Duration::from_millis(self.start_ms)).await;
+        self.log.lock().unwrap().push("Q:started".into());
+        Ok(())
+    }
+    async fn handle(&self, _m: ActorRef<Wire>, m: Wire, _: &mut ()) -> Result<(), ActorProcessingErr> {
+        match m {
+            Wire::Note(n, s) => self.log.lock().unwrap().push(format!("Q:note {n} {s}")),
+            Wire::Ask(n, reply) => {
+                self.log.lock().unwrap().push(format!("Q:ask {n}"));
+                let _ = reply.send(1000 + n);
+            }
+        }
+        Ok(())
+    }
+}
+
+fn c20_slow_start_body(instant: bool) -> vsched::Body {
+    with_rt(move || async move {
+        let t = two_nodes().await;
+        dial(&t.a, &t.b, "pipe-ab", 0);
+        vsched::quiesce_time();
+        let mut bad = Vec::new();
+        let qlog: L = Arc::new(Mutex::new(vec![]));
+        vsched::explore_schedules(true);
+        let starter = SlowStarter { log: qlog.clone(), start_ms: 20 };
+        let q = if instant {
+            let (q, _outer) = ractor::ActorRuntime::<SlowStarter>::spawn_instant(None, starter, ()).expect("instant Q");
+            q
+        } else {
+            // an awaited spawn run by a task of its own; the reference is fished out of the group
+            let _h = vsched::spawn("spawner", async move { Actor::spawn(None, starter, ()).await.map(|(_, h)| h) });
+            vsched::quiesce();
+            let Some(cell) = ractor::pg::get_local_members(&"slow".to_string()).into_iter().next() else {
+                return Outcome { key: "no-q".into(), violations: vec!["(harness) the slow starter did not join its group".into()] };
+            };
+            let q: ActorRef<Wire> = cell.into();
+            q
+        };
+        // no time passes: Q is still inside pre_start (or has not begun), the peer already knows it
+        vsched::quiesce();
+        let status_then = q.get_status();
+        let proxy = remote_ref_of(q.get_id(), "slow");
+        match &proxy {
+            None => bad.push(format!("the actor joined a group in pre_start ({status_then:?}) but no remote reference appeared in that group: {:?}", ractor::pg::verif_snapshot().groups)),
+            Some(px) => {
+                let r: ActorRef<Wire> = px.clone().into();
+                let c1 = r.cast(Wire::Note(1, "early".into())).is_ok();
+                let early = r.call(|reply| Wire::Ask(2, reply), Some(Duration::from_millis(200))).await;
+                vsched::quiesce_time();
+                let c2 = r.cast(Wire::Note(5, "late".into())).is_ok();
+                let late = r.call(|reply| Wire::Ask(6, reply), Some(Duration::from_millis(200))).await;
+                vsched::quiesce_time();
+                let l = qlog.lock().unwrap().clone();
+                let want = vec!["Q:started".to_string(), "Q:note 1 early".into(), "Q:ask 2".into(), "Q:note 5 late".into(), "Q:ask 6".into()];
+                if l != want {
+                    bad.push(format!("the original was {status_then:?} when the peer first used its remote reference (casts accepted: {c1}, {c2}); it handled {l:?}, expected {want:?}"));
+                }
+                for (name, a, v) in [("during start-up", &early, 1002u32), ("after start-up", &late, 1006)] {
+                    if !matches!(a, Ok(ractor::rpc::CallResult::Success(x)) if *x == v) {
+                        bad.push(format!("the call made {name} ended as {:?}, expected Success({v})", a.as_ref().map(|c| format!("{c:?}")).map_err(|_| "send error")));
+                    }
+                }
+            }
+        }
+        vsched::explore_schedules(false);
+        let key = format!("{status_then:?} {:?}", qlog.lock().unwrap().len());
+        q.stop(None);
+        let _ = q.wait(None).await;
+        vsched::quiesce_time();
+        for n in [t.a, t.b] {
+            n.server.stop(None);
+            let _ = n.handle.await;
+        }
+        Outcome { key, violations: bad }
+    })
+}
+
 /// A call times out at the caller while the request is still under way / the real actor still thinks
 /// (transit takes time, so the peer's deadline ends later than the caller's); the next caller on the same
 /// remote reference must get its own answer, not the late answer to the abandoned call.
@@ -1928,6 +2018,10 @@ pub fn c20_units(thorough: bool) -> Vec<Unit> {
     }
     for (lat, think, pause) in late {
         v.push(Unit::explore_split(Job::new(format!("remote-late/lat{lat}/think{think}/pause{pause}"), cfg.clone(), Some(if thorough { 2 } else { 1 }), c20_late_body(lat, think, pause)), 4));
+    }
+    // an actor that is advertised (through the group it joins in pre_start) while it is still starting
+    for instant in [false, true] {
+        v.push(Unit::explore_split(Job::new(format!("remote-slow-start/{}", if instant { "instant" } else { "awaited" }), cfg.clone(), Some(if thorough { 2 } else { 1 }), c20_slow_start_body(instant)), 4));
     }
     v
 }
